@@ -661,14 +661,18 @@ theorem map_take_eq {α β : Type} (f : α → β) (l : List α) (a b : List β)
     types NS, MD, MF, CNAME, SOA, MB, MG, MR, PTR, MINFO, MX expanded — is the RDATA given with those
     names written out: equal up to ASCII case, octet for octet when the record was written outside
     `Standard` mode (`RdExpands`, `rdExpands_lower`), and `rdOk = true`. -/
-theorem finish_decodes_rdata (macFn : Tsig → List UInt8 → List UInt8) (s : State) (b : Body) (mb : MBody)
+theorem finish_decodes_core (macFn : Tsig → List UInt8 → List UInt8) (s : State) (b : Body) (mb : MBody)
     (hI : I s) (hL : CLay P s b mb) (m : Bytes) (mac : Option (List UInt8)) (hf : finish s macFn = .ok (m, mac))
     (hsz : m.size ≤ 65535) :
     ∃ (d : DMsg) (qs : List QItC) (ian ins iar : List RItC), specDecodeMsg m = some d ∧
       qs.map (·.q) = b.qs ∧ ian.map (·.r) = b.an ∧ ins.map (·.r) = b.ns ∧
       iar.map (·.r) = b.ar ++ optRecs' s.edns ++ tsigRecs s.tsig mac ∧
       All2 QMatch qs d.questions ∧ All2 RMatchX ian d.an ∧ All2 RMatchX ins d.ns ∧ All2 RMatchX iar d.ar ∧
-      (∀ it ∈ qs, P it.m) ∧ ∀ it ∈ ian ++ ins ++ iar, P it.m := by
+      (∀ it ∈ qs, P it.m) ∧ (∀ it ∈ ian ++ ins ++ iar, P it.m) ∧
+      -- how the message came about: the final buffer, and the answer / authority sections as the
+      -- decoder's record loop returns them
+      ∃ sF len p2 p3, finishWithMac macFn s = (.ok (len, mac), sF) ∧ m = sF.octets.extract 0 sF.cursor ∧ WInv sF ∧
+        decodeRrs m s.ancount s.rrStart = some (d.an, p2) ∧ decodeRrs m s.nscount p2 = some (d.ns, p3) := by
   unfold finish at hf
   cases hw : finishWithMac macFn s with
   | mk r sF =>
@@ -748,7 +752,8 @@ theorem finish_decodes_rdata (macFn : Tsig → List UInt8 → List UInt8) (s : S
           · rcases List.mem_append.mp hx with hx | hx
             · exact hrP it (List.mem_of_mem_take hx)
             · exact hrP it (List.mem_of_mem_drop (List.mem_of_mem_take hx))
-          · exact hrP it (List.mem_of_mem_drop (List.mem_of_mem_drop hx))⟩
+          · exact hrP it (List.mem_of_mem_drop (List.mem_of_mem_drop hx)),
+        sF, sF.cursor, p2, p3, by rw [← hlc], rfl, wF, hda, hdn⟩
       · unfold specDecodeMsg
         rw [if_neg (by rw [hsz']; omega)]
         rw [specField16_some (by rw [hsz']; omega), specField16_some (by rw [hsz']; omega),
@@ -768,6 +773,19 @@ theorem finish_decodes_rdata (macFn : Tsig → List UInt8 → List UInt8) (s : S
         have : rs.drop (b.an ++ b.ns).length = (rs.drop s.ancount).drop s.nscount := by
           rw [List.drop_drop, List.length_append, hanl, hnsl]
         rw [← this]; exact ha2
+
+/-- `finish_decodes_core` without the description of how the message came about -/
+theorem finish_decodes_rdata (macFn : Tsig → List UInt8 → List UInt8) (s : State) (b : Body) (mb : MBody)
+    (hI : I s) (hL : CLay P s b mb) (m : Bytes) (mac : Option (List UInt8)) (hf : finish s macFn = .ok (m, mac))
+    (hsz : m.size ≤ 65535) :
+    ∃ (d : DMsg) (qs : List QItC) (ian ins iar : List RItC), specDecodeMsg m = some d ∧
+      qs.map (·.q) = b.qs ∧ ian.map (·.r) = b.an ∧ ins.map (·.r) = b.ns ∧
+      iar.map (·.r) = b.ar ++ optRecs' s.edns ++ tsigRecs s.tsig mac ∧
+      All2 QMatch qs d.questions ∧ All2 RMatchX ian d.an ∧ All2 RMatchX ins d.ns ∧ All2 RMatchX iar d.ar ∧
+      (∀ it ∈ qs, P it.m) ∧ ∀ it ∈ ian ++ ins ++ iar, P it.m := by
+  obtain ⟨d, qs, ian, ins, iar, h1, h2, h3, h4, h5, h6, h7, h8, h9, h10, h11, _⟩ :=
+    finish_decodes_core macFn s b mb hI hL m mac hf hsz
+  exact ⟨d, qs, ian, ins, iar, h1, h2, h3, h4, h5, h6, h7, h8, h9, h10, h11⟩
 
 /-- **C12 (d) in every compression mode, content.** From a valid writer state whose layout holds the
     questions and records `b`: whatever `finish` returns (if at most 65535 octets) decodes completely
